@@ -6,7 +6,7 @@
    state with the invariant Inv and without the label None (a hypothesis, as in C10). *)
 From Coq Require Import String ZArith List Bool.
 From XV Require Import Base.Label Base.LSet Base.ODict Base.Attr Base.Outcome Model.Hypergraph Model.HgCheck Model.Convert
-  Proofs.HgViews Proofs.HgInv Proofs.HgStep Proofs.HgErrors Proofs.DerivedProofs Proofs.ConvertProofs.
+  Proofs.HgViews Proofs.HgInv Proofs.HgStep Proofs.HgErrors Proofs.DerivedProofs Proofs.ConvertProofs Proofs.NoNoneProofs Model.Matrix Proofs.IncidenceRoundTrip.
 Import ListNotations.
 Open Scope Z_scope.
 
@@ -63,6 +63,26 @@ Proof.
   split; [exact O1|]. intros n e. rewrite M1, (In_bipartite_edgelist s n e Ke). split; [intros [H|[]]; exact H|auto].
 Qed.
 Print Assumptions C11_bipartite_file_roundtrip.
+
+(* read_incidence_matrix(write_incidence_matrix(H)): row i <-> node i, column j <-> edge j, exactly
+   the incidences (the matrix has at least one row and one column) *)
+Theorem C11_incidence_file_roundtrip : forall s, Inv s -> h_edge s <> [] -> h_node s <> [] ->
+  let r := from_incidence_matrix (incidence s None) None in
+  let t := st_of r in
+  out_of r = Ok /\
+  forall i j, (i < length (h_node s))%nat -> (j < length (h_edge s))%nat ->
+    (In (LInt (Z.of_nat i)) (mems t (LInt (Z.of_nat j))) <->
+     In (nth i (keys (h_node s)) LNone) (snd (nth j (h_edge s) (LNone, [])))).
+Proof. exact incidence_positional_roundtrip. Qed.
+Print Assumptions C11_incidence_file_roundtrip.
+
+(* the premises Inv and NoNone hold at every state reachable by an admissible history in which no
+   explicit edge id is None (Python cannot pass one: idx=None means "automatic") *)
+Theorem C11_premises_reachable : forall ops,
+  admissible_history hg_empty ops -> expressible_history ops ->
+  Inv (run ops hg_empty) /\ NoNone (run ops hg_empty).
+Proof. intros ops A E. apply run_NoNone; [exact A|exact E|apply Inv_empty|apply NoNone_empty]. Qed.
+Print Assumptions C11_premises_reachable.
 
 Example C11_nonvacuous :
   let s := run [OAddEdgesFrom (EB1 [[LInt 1; LInt 2; LInt 3]; []; [LInt 3; LInt 4]]) []; OAddNode (LInt 9) [("c"%string, AInt 1)]] hg_empty in
